@@ -5,134 +5,160 @@
   generator/parameter/value.go).  Lemmas: PolyVerif/Lemmas/Nodes*.lean.
 
   All theorems are for an arbitrary value type `V`, arbitrary processor functions `fn`, every graph
-  `g0` satisfying the guard `Init` (acyclic numbering: each dependency has a smaller id; nothing
-  processed yet) and EVERY history `ops : List (Op V)` of parameter updates, scalar re-wirings,
-  array add/remove and reads of arbitrary nodes (rejected calls included; they leave the state alone).
+  `g0` satisfying `Init F g0` (acyclic with fewer than `F` levels — `F` is the evaluation fuel, any
+  number; ids are just names — and nothing processed yet) and EVERY history `ops : List (Op V)` of
+  parameter updates, scalar re-wirings, array add/remove and reads of arbitrary nodes (rejected
+  calls included; they leave the state alone) that keeps the graph acyclic (`Valid F g0 ops`; like
+  the Go API the model has no cycle check, and a cycle makes `Outdated()` recurse forever).
+  `valid_fixed_numbering`: histories in which every new connection goes to a node of smaller rank
+  in one fixed ranking (e.g. smaller id) are valid.
 -/
 import PolyVerif.Lemmas.NodesOps
 
 namespace PolyVerif
 namespace C11
 open Nodes
-variable {V : Type}
-
-/-- the states the API can produce -/
-def Reachable (g : Graph V) : Prop := ∃ g0 ops, Init g0 ∧ g = (run g0 ops).1
+variable {V : Type} {F : Nat}
 
 /-- the ghost-free inductive invariant (I1 ∧ I2 ∧ guard) holds in every reachable state -/
-theorem reachable_inv {g : Graph V} (h : Reachable g) : Inv g := by
-  obtain ⟨g0, ops, h0, rfl⟩ := h
-  exact run_inv h0.inv ops
+theorem reachable_inv (g0 : Graph V) (h0 : Init F g0) (ops : List (Op V)) (hv : Valid F g0 ops) :
+    Inv F (run F g0 ops).1 :=
+  run_inv h0.inv ops hv
 
-/-- `Spec` is evaluation from scratch: it satisfies (and, ids being well-founded, is determined by)
-    the recursive equation that mentions only parameter values, processors and wiring -/
-theorem spec_is_from_scratch (g : Graph V) (hwf : WF g) (i : Nat) :
-    Spec g i = match g i with
+/-- `Spec` is evaluation from scratch: it satisfies (and, the dependency relation being
+    well-founded, is determined by) the recursive equation that mentions only parameter values,
+    processors and wiring -/
+theorem spec_is_from_scratch (g : Graph V) (hac : Acyclic F g) (i : Nat) :
+    Spec F g i = match g i with
       | .param x _ => x
-      | .struct s => s.fn s.scalars s.arrays (s.deps.map (Spec g)) :=
-  Spec_eq g hwf i
+      | .struct s => s.fn s.scalars s.arrays (s.deps.map (Spec F g)) := by
+  obtain ⟨rank, hwf⟩ := hac
+  exact Spec_eq g hwf i
+
+/-- likewise `Outdated` is `Struct.Outdated()`: the fuel never runs out on an acyclic graph -/
+theorem outdated_is_outdated (g : Graph V) (hac : Acyclic F g) (i : Nat) :
+    Outdated F g i = match g i with
+      | .param _ _ => false
+      | .struct s => match s.remembered with
+        | none => true
+        | some rv => s.flag || mismatch g (Outdated F g) s.deps rv := by
+  obtain ⟨rank, hwf⟩ := hac
+  exact Outdated_eq g hwf i
+
+/-- a sufficient condition for the guard on histories: one ranking for the whole history (for
+    instance "every dependency has a smaller id"); the guard itself allows the ranking to change
+    from call to call -/
+theorem valid_fixed_numbering (rank : Nat → Nat) (g0 : Graph V) (hwf : Ranked rank F g0) (ops : List (Op V))
+    (hops : ∀ op ∈ ops, opRanked rank op) : Valid F g0 ops :=
+  (valid_of_fixed_rank hwf ops hops).1
 
 /-- **never stale**: after any history, `Value()` of any node returns the from-scratch value of
     the current graph -/
-theorem read_fresh (g0 : Graph V) (h0 : Init g0) (ops : List (Op V)) (i : Nat) :
-    val (step (run g0 ops).1 (.read i)).1 i = Spec (run g0 ops).1 i := by
-  have hinv := run_inv h0.inv ops
+theorem read_fresh (g0 : Graph V) (h0 : Init F g0) (ops : List (Op V)) (hv : Valid F g0 ops) (i : Nat) :
+    val (step F (run F g0 ops).1 (.read i)).1 i = Spec F (run F g0 ops).1 i := by
+  have hinv := run_inv h0.inv ops hv
+  obtain ⟨rank, hwf⟩ := hinv.wf
   rw [step_read]
   have hok := Eval_ok i _ hinv
-  rw [val_eq_spec hok.inv hok.fresh, Spec_static hinv.wf hok.evo.static]
+  rw [val_eq_spec hok.inv hok.fresh, Spec_static hwf hok.evo.static]
 
 /-- in every reachable state, every node that reports `Processed` holds the from-scratch value
     (so a read that does not execute is fresh as well) -/
-theorem processed_is_fresh (g0 : Graph V) (h0 : Init g0) (ops : List (Op V)) (j : Nat)
-    (hj : Outdated (run g0 ops).1 j = false) : val (run g0 ops).1 j = Spec (run g0 ops).1 j :=
-  val_eq_spec (run_inv h0.inv ops) hj
+theorem processed_is_fresh (g0 : Graph V) (h0 : Init F g0) (ops : List (Op V)) (hv : Valid F g0 ops) (j : Nat)
+    (hj : Outdated F (run F g0 ops).1 j = false) : val (run F g0 ops).1 j = Spec F (run F g0 ops).1 j :=
+  val_eq_spec (run_inv h0.inv ops hv) hj
 
-/-- evaluation changes no parameter, processor or wiring, and only nodes that were outdated (I3) -/
-theorem eval_frame (g0 : Graph V) (h0 : Init g0) (ops : List (Op V)) (i : Nat) :
-    SameStatic (step (run g0 ops).1 (.read i)).1 (run g0 ops).1 ∧
-    (∀ k, Outdated (run g0 ops).1 k = false → (step (run g0 ops).1 (.read i)).1 k = (run g0 ops).1 k) ∧
-    (∀ e ∈ (step (run g0 ops).1 (.read i)).2, Reach (run g0 ops).1 i e.1) := by
-  have hinv := run_inv h0.inv ops
+/-- evaluation changes no parameter, processor or wiring, only nodes that were outdated and lie in
+    the cone of the node read, and executes only such nodes (I3) -/
+theorem eval_frame (g0 : Graph V) (h0 : Init F g0) (ops : List (Op V)) (hv : Valid F g0 ops) (i : Nat) :
+    SameStatic (step F (run F g0 ops).1 (.read i)).1 (run F g0 ops).1 ∧
+    (∀ k, Outdated F (run F g0 ops).1 k = false → (step F (run F g0 ops).1 (.read i)).1 k = (run F g0 ops).1 k) ∧
+    (∀ k, ¬ Reach (run F g0 ops).1 i k → (step F (run F g0 ops).1 (.read i)).1 k = (run F g0 ops).1 k) ∧
+    (∀ e ∈ (step F (run F g0 ops).1 (.read i)).2, Reach (run F g0 ops).1 i e.1) := by
+  have hinv := run_inv h0.inv ops hv
   rw [step_read]
   have hok := Eval_ok i _ hinv
-  exact ⟨hok.evo.static, hok.evo.keep, hok.logCone⟩
+  exact ⟨hok.evo.static, hok.evo.keep, hok.frame, hok.logCone⟩
 
 /-- **a second read executes nothing** (and changes nothing) -/
-theorem reads_idempotent (g0 : Graph V) (h0 : Init g0) (ops : List (Op V)) (i : Nat) :
-    step (step (run g0 ops).1 (.read i)).1 (.read i) = ((step (run g0 ops).1 (.read i)).1, []) := by
-  have hinv := run_inv h0.inv ops
+theorem reads_idempotent (g0 : Graph V) (h0 : Init F g0) (ops : List (Op V)) (hv : Valid F g0 ops) (i : Nat) :
+    step F (step F (run F g0 ops).1 (.read i)).1 (.read i) = ((step F (run F g0 ops).1 (.read i)).1, []) := by
+  have hinv := run_inv h0.inv ops hv
   rw [step_read, step_read]
   have hok := Eval_ok i _ hinv
-  rw [Eval_eq _ hok.inv.wf]
-  cases hs : (Eval (run g0 ops).1 i).1 i with
+  obtain ⟨rank', hwf'⟩ := hok.inv.wf
+  rw [Eval_eq _ hwf']
+  cases hs : (Eval F (run F g0 ops).1 i).1 i with
   | param x v => rfl
   | struct s => simp [hok.fresh]
 
 /-- a node executes during a read only if it was outdated, and it is processed afterwards -/
-theorem exec_only_if_outdated (g0 : Graph V) (h0 : Init g0) (ops : List (Op V)) (i : Nat)
-    (e : Nat × Nat) (he : e ∈ (step (run g0 ops).1 (.read i)).2) :
-    Outdated (run g0 ops).1 e.1 = true ∧ Outdated (step (run g0 ops).1 (.read i)).1 e.1 = false := by
-  have hinv := run_inv h0.inv ops
+theorem exec_only_if_outdated (g0 : Graph V) (h0 : Init F g0) (ops : List (Op V)) (hv : Valid F g0 ops) (i : Nat)
+    (e : Nat × Nat) (he : e ∈ (step F (run F g0 ops).1 (.read i)).2) :
+    Outdated F (run F g0 ops).1 e.1 = true ∧ Outdated F (step F (run F g0 ops).1 (.read i)).1 e.1 = false := by
+  have hinv := run_inv h0.inv ops hv
   rw [step_read] at he ⊢
-  exact ⟨((Eval_ok i _ hinv).logOut e he).1, executed_fresh hinv i e he⟩
+  exact ⟨(Eval_ok i _ hinv).logOut e he, executed_fresh hinv i e he⟩
 
 /-- **recompute only on change**: once node `j` is processed (in particular right after it
     executed), no history that neither updates a parameter in `j`'s dependency cone nor re-wires a
     node of that cone (`j` itself included) executes `j` again, whatever is read, and `j` stays
     processed -/
-theorem exec_only_if_changed (g0 : Graph V) (h0 : Init g0) (ops : List (Op V)) (j : Nat)
-    (hj : Outdated (run g0 ops).1 j = false) (ops2 : List (Op V)) (hq : Untouched (run g0 ops).1 ops2 j) :
-    cnt (run (run g0 ops).1 ops2).2 j = 0 ∧ Outdated (run (run g0 ops).1 ops2).1 j = false := by
-  have := untouched_run (run_inv h0.inv ops) hj ops2 hq
+theorem exec_only_if_changed (g0 : Graph V) (h0 : Init F g0) (ops : List (Op V)) (hv : Valid F g0 ops) (j : Nat)
+    (hj : Outdated F (run F g0 ops).1 j = false) (ops2 : List (Op V)) (hv2 : Valid F (run F g0 ops).1 ops2)
+    (hq : Untouched F (run F g0 ops).1 ops2 j) :
+    cnt (run F (run F g0 ops).1 ops2).2 j = 0 ∧ Outdated F (run F (run F g0 ops).1 ops2).1 j = false := by
+  have := untouched_run (run_inv h0.inv ops hv) hj ops2 hv2 hq
   exact ⟨this.2, this.1⟩
 
 /-- the same, from execution to execution: if `j` executed in a read and the following history
     `ops2` (any reads included) does not touch `j`'s cone, `j` does not execute in `ops2` -/
-theorem reexecution_needs_change (g0 : Graph V) (h0 : Init g0) (ops : List (Op V)) (i j : Nat)
-    (hex : 0 < cnt (step (run g0 ops).1 (.read i)).2 j) (ops2 : List (Op V))
-    (hq : Untouched (step (run g0 ops).1 (.read i)).1 ops2 j) :
-    cnt (run (step (run g0 ops).1 (.read i)).1 ops2).2 j = 0 := by
-  have hinv := run_inv h0.inv ops
+theorem reexecution_needs_change (g0 : Graph V) (h0 : Init F g0) (ops : List (Op V)) (hv : Valid F g0 ops) (i j : Nat)
+    (hex : 0 < cnt (step F (run F g0 ops).1 (.read i)).2 j) (ops2 : List (Op V))
+    (hv2 : Valid F (step F (run F g0 ops).1 (.read i)).1 ops2)
+    (hq : Untouched F (step F (run F g0 ops).1 (.read i)).1 ops2 j) :
+    cnt (run F (step F (run F g0 ops).1 (.read i)).1 ops2).2 j = 0 := by
+  have hinv := run_inv h0.inv ops hv
   obtain ⟨e, he, hej⟩ := cnt_pos_mem hex
-  have hf := (exec_only_if_outdated g0 h0 ops i e he).2
+  have hf := (exec_only_if_outdated g0 h0 ops hv i e he).2
   rw [hej] at hf
-  exact (untouched_run (step_inv hinv _) hf ops2 hq).2
+  have hac : Acyclic F (step F (run F g0 ops).1 (.read i)).1 := step_acyclic_of_not_rewire hinv.wf _ (.inl ⟨i, rfl⟩)
+  exact (untouched_run (step_inv hinv _ hac) hf ops2 hv2 hq).2
 
 /-- **version = number of executions**: along every history the version of every node grows by
     exactly the number of its executions in the log plus, for a parameter, the number of accepted
     updates — and by nothing else -/
-theorem version_counts_executions (g0 : Graph V) (h0 : Init g0) (ops : List (Op V)) (k : Nat) :
-    ver (run g0 ops).1 k = ver g0 k + cnt (run g0 ops).2 k + setCount g0 ops k :=
-  version_run h0.inv ops k
+theorem version_counts_executions (g0 : Graph V) (h0 : Init F g0) (ops : List (Op V)) (hv : Valid F g0 ops) (k : Nat) :
+    ver (run F g0 ops).1 k = ver g0 k + cnt (run F g0 ops).2 k + setCount F g0 ops k :=
+  version_run h0.inv ops hv k
 
 /-- for a struct node the version counts its executions and nothing else -/
-theorem struct_version_counts_executions (g0 : Graph V) (h0 : Init g0) (ops : List (Op V)) (k : Nat)
-    (s : SNode V) (hk : g0 k = .struct s) :
-    ver (run g0 ops).1 k = s.version + cnt (run g0 ops).2 k := by
-  rw [version_run h0.inv ops k, setCount_struct h0.inv ops k (by simp [hk, isParam])]
+theorem struct_version_counts_executions (g0 : Graph V) (h0 : Init F g0) (ops : List (Op V)) (hv : Valid F g0 ops)
+    (k : Nat) (s : SNode V) (hk : g0 k = .struct s) :
+    ver (run F g0 ops).1 k = s.version + cnt (run F g0 ops).2 k := by
+  rw [version_run h0.inv ops hv k, setCount_struct g0 ops k (by simp [hk, isParam])]
   simp [ver, hk]
 
 /-- one step: +1 per execution, +1 for an accepted `Set` of that parameter, otherwise unchanged -/
-theorem version_step_exact (g0 : Graph V) (h0 : Init g0) (ops : List (Op V)) (op : Op V) (k : Nat) :
-    ver (step (run g0 ops).1 op).1 k
-      = ver (run g0 ops).1 k + cnt (step (run g0 ops).1 op).2 k + bumps (run g0 ops).1 op k :=
-  version_step (run_inv h0.inv ops) op k
+theorem version_step_exact (g0 : Graph V) (h0 : Init F g0) (ops : List (Op V)) (hv : Valid F g0 ops) (op : Op V)
+    (k : Nat) :
+    ver (step F (run F g0 ops).1 op).1 k
+      = ver (run F g0 ops).1 k + cnt (step F (run F g0 ops).1 op).2 k + bumps (run F g0 ops).1 op k :=
+  version_step (run_inv h0.inv ops hv) op k
 
 /-- the index `sn.depVersions[i]` in `Outdated()` never panics: whenever the flag is clear the
     remembered list has one entry per dependency (and each is `≤` the dependency's version) -/
-theorem remembered_length (g0 : Graph V) (h0 : Init g0) (ops : List (Op V)) (i : Nat) (s : SNode V)
-    (rv : List Nat) (hs : (run g0 ops).1 i = .struct s) (hr : s.remembered = some rv) (hf : s.flag = false) :
-    rv.length = s.deps.length ∧ All2 (fun d r => r ≤ ver (run g0 ops).1 d) s.deps rv := by
-  have h := (run_inv h0.inv ops).rem i s rv hs hr hf
+theorem remembered_length (g0 : Graph V) (h0 : Init F g0) (ops : List (Op V)) (hv : Valid F g0 ops) (i : Nat)
+    (s : SNode V) (rv : List Nat) (hs : (run F g0 ops).1 i = .struct s) (hr : s.remembered = some rv)
+    (hf : s.flag = false) :
+    rv.length = s.deps.length ∧ All2 (fun d r => r ≤ ver (run F g0 ops).1 d) s.deps rv := by
+  have h := (run_inv h0.inv ops hv).rem i s rv hs hr hf
   exact ⟨h.length_eq.symm, h⟩
 
 /-- the executable cone used by the driver's `no_spurious` oracle is the cone `Reach` of the theorems -/
-theorem inCone_iff_reach (g : Graph V) (hwf : WF g) (j k : Nat) : inCone (j+1) g j k = true ↔ Reach g j k :=
-  inCone_iff hwf (j+1) j k (Nat.lt_succ_self j)
-
-/-- the guard is preserved: the model never creates a dependency on a node with a larger id -/
-theorem wf_preserved (g0 : Graph V) (h0 : Init g0) (ops : List (Op V)) : WF (run g0 ops).1 :=
-  (run_inv h0.inv ops).wf
+theorem inCone_iff_reach (g : Graph V) (hac : Acyclic F g) (j k : Nat) : inCone F g j k = true ↔ Reach g j k := by
+  obtain ⟨rank, hwf⟩ := hac
+  exact inCone_iff hwf F j k (hwf.1 j)
 
 /-! ### the pre-2752e26 defect: dependencies enumerated in map order -/
 
@@ -197,8 +223,12 @@ def diamond : Graph Nat := fun i =>
   | 4 => mk [some 2, some 3] [[0, 2]]
   | _ => .param 0 0
 
-theorem diamond_init : Init diamond := by
+/-- ranking of the example: the id, for the five nodes -/
+def rk (i : Nat) : Nat := if i < 5 then i else 0
+
+theorem diamond_ranked : Ranked rk 5 diamond := by
   constructor
+  · intro i; simp only [rk]; split <;> omega
   · intro i s hs d hd
     match i with
     | 0 | 1 => simp [diamond] at hs
@@ -206,40 +236,90 @@ theorem diamond_init : Init diamond := by
       simp only [diamond, mk, Node.struct.injEq] at hs
       subst hs
       simp [SNode.deps] at hd
+      have hd5 : d < 5 := by omega
+      simp only [rk, hd5, if_true, show (2:Nat) < 5 by omega, show (3:Nat) < 5 by omega,
+        show (4:Nat) < 5 by omega]
       omega
     | n+5 => simp [diamond] at hs
-  · intro i s hs
-    match i with
-    | 0 | 1 => simp [diamond] at hs
-    | 2 | 3 | 4 =>
-      simp only [diamond, mk, Node.struct.injEq] at hs
-      subst hs
-      rfl
-    | n+5 => simp [diamond] at hs
+
+theorem diamond_init : Init 5 diamond := by
+  refine ⟨⟨rk, diamond_ranked⟩, ?_⟩
+  intro i s hs
+  match i with
+  | 0 | 1 => simp [diamond] at hs
+  | 2 | 3 | 4 =>
+    simp only [diamond, mk, Node.struct.injEq] at hs
+    subst hs
+    rfl
+  | n+5 => simp [diamond] at hs
 
 def history : List (Op Nat) :=
   [.read 4, .setParam 0 9, .read 3, .setInput 3 1 (some 1), .arrayRemove 4 0 0, .read 4, .arrayAdd 4 0 3, .read 4]
 
-example : val (step (run diamond history).1 (.read 4)).1 4 = Spec (run diamond history).1 4 :=
-  read_fresh diamond diamond_init history 4
+theorem history_valid : Valid 5 diamond history := by
+  apply valid_fixed_numbering rk diamond diamond_ranked
+  intro op hop
+  simp only [history, List.mem_cons, List.not_mem_nil, or_false] at hop
+  rcases hop with rfl | rfl | rfl | rfl | rfl | rfl | rfl | rfl <;> simp [opRanked, rk]
 
-example : (run diamond history).2 = [(2, 1), (3, 1), (4, 1), (2, 2), (3, 2), (3, 3), (4, 2), (4, 3)] := by decide
+example : val (step 5 (run 5 diamond history).1 (.read 4)).1 4 = Spec 5 (run 5 diamond history).1 4 :=
+  read_fresh diamond diamond_init history history_valid 4
 
-example : Spec (run diamond history).1 4 = 85 := by decide
+example : (run 5 diamond history).2 = [(2, 1), (3, 1), (4, 1), (2, 2), (3, 2), (3, 3), (4, 2), (4, 3)] := by decide
+
+example : Spec 5 (run 5 diamond history).1 4 = 85 := by decide
 
 /-- hypotheses of `exec_only_if_changed` on a concrete instance: node 3 is processed after reading
     it; re-wiring node 4 and reading 2 and 4 does not touch the cone {3,2,0,1} of node 3 -/
-example : Outdated (run diamond [.read 3]).1 3 = false := by decide
+example : Outdated 5 (run 5 diamond [.read 3]).1 3 = false := by decide
 
-example : Untouched (run diamond [.read 3]).1 [.arrayAdd 4 0 1, .read 4, .setInput 4 0 none, .read 2, .read 4] 3 := by
-  apply untouched_of_above (run_inv diamond_init.inv _)
+def history2 : List (Op Nat) := [.arrayAdd 4 0 1, .read 4, .setInput 4 0 none, .read 2, .read 4]
+
+example : Valid 5 (run 5 diamond [.read 3]).1 history2 ∧ Untouched 5 (run 5 diamond [.read 3]).1 history2 3 := by
+  have hr := (valid_of_fixed_rank diamond_ranked [.read 3] (by simp [opRanked])).2
+  have hops : ∀ op ∈ history2, opRanked rk op := by
+    intro op hop
+    simp only [history2, List.mem_cons, List.not_mem_nil, or_false] at hop
+    rcases hop with rfl | rfl | rfl | rfl | rfl <;> simp [opRanked, rk]
+  refine ⟨(valid_of_fixed_rank hr history2 hops).1, untouched_of_above hr 3 history2 hops ?_⟩
   intro op hop
-  simp only [List.mem_cons, List.not_mem_nil, or_false] at hop
-  rcases hop with rfl | rfl | rfl | rfl | rfl <;> simp [opNode]
+  simp only [history2, List.mem_cons, List.not_mem_nil, or_false] at hop
+  rcases hop with rfl | rfl | rfl | rfl | rfl <;> simp [opNode, rk]
 
 /-- and indeed node 3 is not executed by that history, while node 4 is (twice) -/
-example : (run (run diamond [.read 3]).1 [.arrayAdd 4 0 1, .read 4, .setInput 4 0 none, .read 2, .read 4]).2
-    = [(4, 1), (4, 2)] := by decide
+example : (run 5 (run 5 diamond [.read 3]).1 history2).2 = [(4, 1), (4, 2)] := by decide
+
+/-- a history that NO fixed numbering admits, but that is valid: 3 depends on 2, the edge is removed,
+    then 2 is made to depend on 3 (the guard lets the ranking change from call to call) -/
+def flip : List (Op Nat) :=
+  [.read 4, .setInput 3 0 none, .setInput 4 0 none, .arrayRemove 4 0 1, .setInput 2 0 (some 3), .arrayAdd 4 0 2, .read 4]
+
+example : (run 5 diamond flip).2 = [(2, 1), (3, 1), (4, 1), (3, 2), (2, 2), (4, 2)] ∧
+    Spec 5 (run 5 diamond flip).1 4 = 16 ∧ val (run 5 diamond flip).1 4 = 16 := by decide
+
+theorem diamond_params (ops : List (Op Nat)) (i : Nat) (hi : 5 ≤ i) : isParam ((run 5 diamond ops).1 i) = true := by
+  rw [run_isParam]
+  match i with
+  | n+5 => rfl
+
+/-- the ranking after the edges 3 → 2, 4 → 2 are gone: 3 below 2 -/
+def rk2 (i : Nat) : Nat := if i = 3 then 1 else if i = 2 then 2 else if i = 4 then 3 else 0
+
+/-- its validity: the ranking `rk` (ids) serves until the edges are removed, `rk2` afterwards; no
+    single ranking serves both `3 → 2` (initially) and `2 → 3` (at the end) -/
+example : Valid 5 diamond flip := by
+  have h1 := valid_of_fixed_rank diamond_ranked [.read 4, .setInput 3 0 none, .setInput 4 0 none, .arrayRemove 4 0 1]
+    (by intro op hop; simp only [List.mem_cons, List.not_mem_nil, or_false] at hop
+        rcases hop with rfl | rfl | rfl | rfl <;> simp [opRanked])
+  have hr2 : Ranked rk2 5 (run 5 diamond [.read 4, .setInput 3 0 none, .setInput 4 0 none, .arrayRemove 4 0 1]).1 := by
+    apply ranked_of_check 5
+    · intro i; simp only [rk2]; split <;> (try split) <;> (try split) <;> omega
+    · exact diamond_params _
+    · decide
+  have h2 := valid_of_fixed_rank hr2 [.setInput 2 0 (some 3), .arrayAdd 4 0 2, .read 4]
+    (by intro op hop; simp only [List.mem_cons, List.not_mem_nil, or_false] at hop
+        rcases hop with rfl | rfl | rfl <;> simp [opRanked, rk2])
+  exact ⟨h1.1.1, h1.1.2.1, h1.1.2.2.1, h1.1.2.2.2.1, h2.1.1, h2.1.2.1, h2.1.2.2.1, trivial⟩
 
 end C11
 end PolyVerif
